@@ -1,7 +1,7 @@
 (* C18 — property theorems only.  Each is closed by [exact] of a lemma from
    Proofs.v; the driver pins the statements with [Check] and prints the
    assumptions on every run.  Non-vacuity examples are in Examples.v. *)
-From Yv Require Import Common.Base C18.Model C18.Spec C18.Run C18.Proofs C18.Examples.
+From Yv Require Import Common.Base C18.Model C18.Spec C18.Run C18.Proofs C18.ProofsNested C18.Examples.
 
 (* the byte-level machine (chunked descriptor, one byte per read, lexer line buffer with its pending text) does exactly what the line-level reference semantics says, for every parser, script source, chunking and fuel *)
 Theorem model_refines_spec :
@@ -98,6 +98,51 @@ Theorem input_pieces_equal_lines :
   forall parser fuel pf (p d : dev), model_run parser fuel pf (SrcInput p) d = model_run parser fuel pf (SrcMem (split_lines (concat p))) d.
 Proof. exact input_pieces_equal_lines_lemma. Qed.
 
+(* model_refines_spec extended to programs with nested read-eval loops: at every nesting level (eval / dot run a new loop on a Memory source / on a descriptor of their own, on the same shell state and standard input), the byte-level machine equals the line-level reference semantics, for every parser, source, chunking and fuel *)
+Theorem nested_refines_spec :
+  forall parser lvl fuel pf src d, nmodel_run parser lvl fuel pf src d = nspec_run parser lvl fuel pf (abs_src src) (abs_dev d).
+Proof. exact nested_refines_spec_lemma. Qed.
+
+(* chunking_irrelevant extended to nested loops: with eval / dot commands (whose inner commands read the same standard input) two deliveries of the same bytes give the same run *)
+Theorem nested_chunking_irrelevant :
+  forall parser lvl fuel pf (d1 d2 : dev), concat d1 = concat d2 -> nmodel_run parser lvl fuel pf SrcStdin d1 = nmodel_run parser lvl fuel pf SrcStdin d2.
+Proof. exact nested_chunking_irrelevant_lemma. Qed.
+
+(* the same when the script has a descriptor of its own *)
+Theorem nested_chunking_irrelevant_script_file :
+  forall parser lvl fuel pf (s1 s2 d1 d2 : dev), concat s1 = concat s2 -> concat d1 = concat d2 -> nmodel_run parser lvl fuel pf (SrcOwn s1) d1 = nmodel_run parser lvl fuel pf (SrcOwn s2) d2.
+Proof. exact nested_chunking_irrelevant_own_lemma. Qed.
+
+(* at nesting level 0 (what the check uses for scripts without eval / dot) the nested model is the model all other theorems are about *)
+Theorem level0_is_model :
+  forall parser fuel pf src d, nmodel_run parser 0 fuel pf src d = model_run parser fuel pf src d.
+Proof. exact level0_is_model_lemma. Qed.
+
+(* parsing a command of a nested text (source = Memory string of eval or the descriptor dot opened) takes nothing from standard input and does not move its position, however many lines the command needs *)
+Theorem nested_parse_leaves_stdin :
+  forall parser fuel0 pf0 lvl pf sts pend fed s (d : dev) off eof ph fed' s' d' off' eof', s <> SrcStdin -> parse_phase (byte_ops_at parser fuel0 pf0 lvl) parser pf sts pend fed s d off eof = (ph, (fed', s', d', off', eof')) -> d' = d /\ off' = off /\ s' <> SrcStdin.
+Proof. exact nested_parse_leaves_stdin_lemma. Qed.
+
+(* one iteration of a nested loop: the command is parsed in the parser state (aliases, options) that the inner commands before it left, parsing leaves standard input and its position as they were, and the state after the iteration is exactly that of executing this one command on the state before it — so the position of the outer descriptor after eval / dot is the position after the command line containing it plus what the commands executed inside took *)
+Theorem nested_iteration_runs_one_command :
+  forall parser fuel0 pf0 lvl pf (m m' : mstate (I:=dev) (SRC:=source)), m_src m <> SrcStdin -> iterx (byte_ops_at parser fuel0 pf0 lvl) parser pf m = inl m' -> exists c p fed' src' eof', parse_phase (byte_ops_at parser fuel0 pf0 lvl) parser pf ((if m_pend m then m_hist m else []) ++ [s_ps (x_sh (m_x m))]) (m_pend m) (m_fed m) (m_src m) (x_in (m_x m)) (x_off (m_x m)) (m_eof m) = (PhDone (PComplete c p), (fed', src', x_in (m_x m), x_off (m_x m), eof')) /\ exec (byte_ops_at parser fuel0 pf0 lvl) c (m_x m) = (m_x m', false) /\ m_src m' = src' /\ src' <> SrcStdin.
+Proof. exact nested_iteration_lemma. Qed.
+
+(* a syntax error at the (k+1)-th command of a nested text stops the nested loop there: eval / dot hands back exactly the state the k inner commands before it left (records, variables, aliases, options, position of standard input) and interrupts the enclosing command with exit status 2 (the non-interactive shell then stops like for a syntax error in the script) *)
+Theorem nested_syntax_error_keeps_earlier_effects :
+  forall parser lvl fuel pf s (x : xstate (I:=dev)) (k : nat) m, nsrc_empty s = false -> (k < fuel)%nat -> iterx_n (byte_ops_at parser fuel pf lvl) parser k pf (mkM x (byte_src s) false false [] []) = inl m -> (exists y, iterx (byte_ops_at parser fuel pf lvl) parser pf m = inr (FSyntax, y)) -> op_nest (byte_ops_at parser fuel pf (S lvl)) s x = (with_status (ST_INTR + 2) (m_x m), true).
+Proof. exact nested_syntax_error_lemma. Qed.
+
+(* the delivery-independence clause and the reference-semantics clause of the oracle accept everything the nested model can produce, at every level *)
+Theorem nested_oracle_sound :
+  forall parser lvl fuel pf script data f1 f2, let o := obs_of_final (nmodel_of parser lvl fuel pf script data f1) in (shared f1 = true -> shared f2 = true -> obs_eqb (obs_of_final (nmodel_of parser lvl fuel pf script data f2)) o = true) /\ obs_eqb (obs_of_final (nspec_of parser lvl fuel pf script data f1)) o = true.
+Proof. exact nested_oracle_sound_lemma. Qed.
+
+(* for a parser that never yields a command containing eval / dot, the nested model at every level is the model the other theorems are about: all of them hold for it unchanged *)
+Theorem nested_conservative :
+  forall parser lvl fuel pf src d, parser_nest_free parser -> nmodel_run parser lvl fuel pf src d = model_run parser fuel pf src d.
+Proof. exact nested_conservative_lemma. Qed.
+
 Print Assumptions model_refines_spec.
 Print Assumptions run_is_line_by_line.
 Print Assumptions chunking_irrelevant.
@@ -117,3 +162,12 @@ Print Assumptions fuel_never_runs_out.
 Print Assumptions echo_clause_quiet.
 Print Assumptions input_pieces_irrelevant.
 Print Assumptions input_pieces_equal_lines.
+Print Assumptions nested_refines_spec.
+Print Assumptions nested_chunking_irrelevant.
+Print Assumptions nested_chunking_irrelevant_script_file.
+Print Assumptions level0_is_model.
+Print Assumptions nested_parse_leaves_stdin.
+Print Assumptions nested_iteration_runs_one_command.
+Print Assumptions nested_syntax_error_keeps_earlier_effects.
+Print Assumptions nested_oracle_sound.
+Print Assumptions nested_conservative.
